@@ -13,7 +13,7 @@ import os, sys, json, tempfile, shutil
 import vlib, e2e, sync_e2e
 
 THEOREMS = ['C02_source_only_read', 'C02_read_only_changes_nothing', 'C02_through_needs_link', 'C02_clean_run_confined',
-            'C02_dry_run_confined', 'C02_refuted_after_failed_link_delete', 'C02_src_sites_read_only']
+            'C02_dry_run_confined', 'C02_blocked_refused', 'C02_failed_delete_blocks', 'C02_blocked_stays', 'C02_src_sites_read_only']
 
 READ_ONLY = {'SetRoot', 'GetEntries', 'GetFileContent', 'Marker', 'Shutdown', 'ProfilingTimeSync'}
 
@@ -23,13 +23,13 @@ def has_dest_link(sc):
 
 
 def f6b_witness(run, binary, jbin, base, known, prop='C02'):
-    """The recorded witness of F6b: the deletion of a destination link fails (injected) while the file
-    that replaces it is already on its way.  Whether the queued creation overtakes the error reply is a
-    race the boss usually loses, so the run is repeated a few times."""
-    if 'F6b' not in known:
-        return
+    """The former witness of F6b (repaired: the doer refuses what is queued behind a failed deletion), kept
+    as a corpus case that runs first: the deletion of a destination link fails while the file that replaces it
+    is already on its way - (a) injected through the fault hook, repeated because the queued creation has
+    to overtake the error reply, (b) for real, hook-free: the link's parent folder is immutable (chattr +i),
+    so unlink fails with EPERM while open() of the link still reaches its target.  The decoy must stay."""
     from sync_e2e import T0
-    for attempt in range(40):
+    for attempt in range(12):
         sc = sync_e2e.Scenario()
         sc.outside = {k: dict(v) for k, v in sync_e2e.OUTSIDE.items()}
         sc.src = {'': {'k': 'dir'}, 'f': {'k': 'file', 'data': b'NEW', 'mtime_ns': T0}}
@@ -38,12 +38,61 @@ def f6b_witness(run, binary, jbin, base, known, prop='C02'):
         sc.faults = {'fd': [0], 'fsrc': [], 'lag': 0}
         sc.tag = 'F6b-witness'
         o = sync_e2e.run_scenario(sc, binary, jbin, base)
-        run.count('F6b-witness-attempts')
+        run.count('F6b-witness-injected')
+        run.case(('F6b', attempt), True)
         if o.impl['after']['outside'] != o.impl['before']['outside']:
-            run.known('F6b', known['F6b']['what'])
-            run.case(('F6b', attempt), True, sample={'F6b_witness': 'outside/target.txt overwritten through dest/f after the injected DeleteSymlink failure', 'exit': o.impl['exit']})
+            run.fail('%s: a failed link deletion was followed by a write THROUGH the link (F6b has returned): outside/target.txt changed' % prop,
+                     {'family': 'F6b-witness', 'scenario': sc.to_json(), 'text': o.impl['text'][-600:]})
             return
-    run.notes.append('F6b witness did not manifest in 40 attempts (the error reply won the race every time)')
+        if o.impl['exit'] == 0:
+            run.fail('%s: the injected failure of the link deletion was not reported (exit 0)' % prop, {'family': 'F6b-witness', 'scenario': sc.to_json()})
+            return
+    immutable_link_family(run, binary, base, prop)
+
+
+def immutable_link_family(run, binary, base, prop, n=6):
+    """Hook-free: destination links (to decoys outside) that cannot be deleted because their folder is immutable."""
+    import subprocess, tempfile as tf
+    rng = run.rng
+    for i in range(n):
+        root = tf.mkdtemp(prefix='imm_', dir=base)
+        sub = rng.choice(['sub', 'a/b'])
+        kind = rng.choice(['file', 'dir'])
+        src = {'': {'k': 'dir'}}
+        for part in range(1, len(sub.split('/')) + 1):
+            src['/'.join(sub.split('/')[:part])] = {'k': 'dir'}
+        dest = {k: dict(v) for k, v in src.items()}
+        if kind == 'file':
+            src[sub + '/f'] = {'k': 'file', 'data': b'NEWCONTENT' * rng.choice([1, 900]), 'mtime_ns': sync_e2e.T0}
+            dest[sub + '/f'] = {'k': 'link', 'text': ('../' * (sub.count('/') + 2) + 'outside/target.txt').encode()}
+        else:
+            src[sub + '/f'] = {'k': 'dir'}
+            src[sub + '/f/inner.txt'] = {'k': 'file', 'data': b'NEW', 'mtime_ns': sync_e2e.T0}
+            src[sub + '/f/more'] = {'k': 'dir'}
+            dest[sub + '/f'] = {'k': 'link', 'text': ('../' * (sub.count('/') + 2) + 'outside/dir').encode()}
+        e2e.build_tree(os.path.join(root, 'outside'), sync_e2e.OUTSIDE)
+        e2e.build_tree(os.path.join(root, 'src'), src)
+        e2e.build_tree(os.path.join(root, 'dest'), dest)
+        imm = os.path.join(root, 'dest', sub)
+        if subprocess.run(['chattr', '+i', imm], capture_output=True).returncode != 0:
+            run.notes.append('chattr +i is not available on this file system: the immutable-folder family was skipped')
+            shutil.rmtree(root, ignore_errors=True)
+            return
+        try:
+            before = e2e.snapshot(os.path.join(root, 'outside'))
+            r = e2e.run_cli(binary, [os.path.join(root, 'src') + '/', os.path.join(root, 'dest') + '/'], env={}, timeout=60)
+            after = e2e.snapshot(os.path.join(root, 'outside'))
+        finally:
+            subprocess.run(['chattr', '-i', imm], capture_output=True)
+        run.count('immutable-link:%s:exit:%s' % (kind, r['exit']))
+        run.case(('immutable', sub, kind, i), True, sample={'immutable_folder': sub, 'link_in_the_way_is_a': kind, 'exit': r['exit']} if i < 2 else None)
+        if after != before:
+            run.fail('%s: the link %s/f could not be deleted (immutable folder, EPERM) and the queued creations went THROUGH it: %s changed' %
+                     (prop, sub, [k for k in set(after) | set(before) if after.get(k) != before.get(k)][:3]),
+                     {'family': 'immutable-link', 'sub': sub, 'kind': kind, 'text': (r['stdout'] + r['stderr'])[-600:]})
+        elif r['exit'] == 0:
+            run.fail('%s: the deletion of %s/f failed (EPERM) and the run exited 0' % (prop, sub), {'family': 'immutable-link', 'sub': sub, 'kind': kind})
+        shutil.rmtree(root, ignore_errors=True)
 
 
 def check(run):
@@ -114,9 +163,6 @@ def check(run):
             elif im['after']['outside'] != im['before']['outside']:
                 bad = 'something outside the destination changed: %s' % [k for k in set(im['after']['outside']) | set(im['before']['outside'])
                                                                         if im['after']['outside'].get(k) != im['before']['outside'].get(k)][:4]
-                if sc.faults['fd'] and has_dest_link(sc) and 'F6b' in known:
-                    run.known('F6b', known['F6b']['what'])
-                    bad = None
             if bad:
                 run.fail('C02: ' + bad, {'scenario': sc.to_json(), 'text': im['text'][-800:]})
             elif o.mismatch and sc.placement == 'LL':
